@@ -110,7 +110,7 @@ func runSelfTest(prop, repo string, r *Report) {
 		applied bool
 	}
 	results := make([]res, len(muts))
-	sem := make(chan struct{}, 8)
+	sem := make(chan struct{}, 10)
 	var wg sync.WaitGroup
 	for i, m := range muts {
 		wg.Add(1)
